@@ -123,7 +123,7 @@ def check_tables(fx, R):
             R.undecided('G1', 'SmartRotation3D::dRdAngleAround%sAxis' % ax, 'accessor vanished')
             continue
         R.used(f)
-        R.check(stmts_sx(f) == [('return', 'this.' + tabn)], 'G1', 'SmartRotation3D::dRdAngleAround%sAxis:accessor' % ax, 'returns %s' % (stmts_sx(f),), 'returns ' + tabn, fx.rel(f['loc']), 'E-SIB')
+        R.form(stmts_sx(f) == [('return', 'this.' + tabn)], 'G1', 'SmartRotation3D::dRdAngleAround%sAxis:accessor' % ax, 'returns %s' % (stmts_sx(f),), 'returns ' + tabn, fx.rel(f['loc']), 'E-SIB')
     # ---- G2 -------------------------------------------------------------------------------
     f = fx.one(rot.Q + 'dRTdAngles')
     if f is None:
